@@ -87,7 +87,7 @@ def run(ctx):
 
 def run_wire(ctx, binp, corr_broken, n, search=False):
     corpus = ":".join(e1util.corpus_files("C07"))
-    ok, ops, impl, out = e1util.run_corr(ctx, binp, "TestVerifWireCorr", "wire", n, {"VERIF_CORPUS": corpus}, timeout=1500)
+    ok, ops, impl, out = e1util.run_corr(ctx, binp, "TestVerifWireCorr", "wire", n, {"VERIF_CORPUS": corpus}, timeout=ctx.budget(400, 1500))
     if not ok:
         corr_broken.append("TestVerifWireCorr exit")
         return
